@@ -120,7 +120,7 @@ def _tag(tag):
 
 def nontrivial(op, mres, tag):
     f = op.split()
-    if f[1] == "loop":
+    if f[1] in ("loop", "slow"):
         return True
     if f[1] != "hist" or not mres.startswith("ok") or not tag:
         return False
@@ -135,6 +135,8 @@ def branch(op, mres, tag):
     f = op.split()
     if f[1] == "loop":
         return "loop:" + mres
+    if f[1] == "slow":
+        return "slow:" + mres
     if not mres.startswith("ok") or not tag:
         return "hist:" + mres.split(" ")[0]
     N, I, st = _tag(tag)
@@ -155,6 +157,14 @@ def predicate(op, il, mres, tag):
             return (OBLIGATIONS[0], "exited", "Server.Close() did not end healthCheckLoop within 1 s: " + il)
         if "extra=" in il and not il.endswith("extra=0"):
             return (OBLIGATIONS[0], "exited extra=0", "a health check ran after Close()")
+        return None
+    if f[1] == "slow":
+        ntok, ping, wait, iv = (int(x) for x in f[2:6])
+        want = "200" if wait <= 3 * 1000 * (iv or 60) else "503"
+        if il.startswith("ok") and il.split()[1] != want:
+            return ("Relic.Props.C20.healthy_iff", "ok " + want,
+                    "/health answered %s %d ms after a successful check round of %d ms completed (interval %d s): staleness must be "
+                    "counted from the completion of the last check" % (il.split()[1], wait, ntok * ping, iv or 60))
         return None
     if f[1] != "hist" or not il.startswith("ok"):
         return None
